@@ -27,7 +27,7 @@ BOUNDS = {
     "bl": (4, 64 * K),
 }
 OPS_PER_PAGE, OPS_CONST = 2, 8          # one seek + one read per page touched, pages are touched in ascending order within a call
-TIME_LIMIT_US = 5_000_000
+TIME_LIMIT_US = 5_000_000       # CPU time of the harness thread during one call (wall time is reported only: it grows with the load of the machine)
 
 
 # ---------------------------------------------------------------- zero-width record receiving large streams
@@ -186,7 +186,9 @@ def run(rep, tier, rng, replay=None):
     n_bad = n_corr = n_skip = n_model = 0
     worst = {}
 
-    def judge(prof, m, t, label_prefix=""):
+    slow = []        # (cpu us, profile, mutant, label, masks): candidates for c09-time, confirmed below
+
+    def judge(prof, m, t, masks=None):
         nonlocal n_bad
         L = len(m["phys"])
         pages = (L + 1023) // 1024
@@ -221,6 +223,7 @@ def run(rep, tier, rng, replay=None):
                 st["max_bytes_per_file_byte"] = round(max(st["max_bytes_per_file_byte"], max(0, me["m"] - b) / L), 2)
             st["max_ops"] = max(st["max_ops"], me["o"])
             st["max_step_us"] = max(st["max_step_us"], me["t"])
+            st["max_step_cpu_us"] = max(st.get("max_step_cpu_us", 0), me.get("c", 0))
             st["max_over_fixed_bound"] = round(max(st["max_over_fixed_bound"], me["m"] / float(fixed)), 3)
             desc = None
             if me["m"] > fixed and z > 0 and kind in ("raw", "simple"):
@@ -232,8 +235,8 @@ def run(rep, tier, rng, replay=None):
                 desc = ("c09-memory-bound", "peak additional heap %d bytes in %s exceeds %d * %d + %d" % (me["m"], label, a, L, b))
             elif me["o"] > OPS_PER_PAGE * pages + OPS_CONST:
                 desc = ("c09-device-operations", "%d device operations in %s on a file of %d pages (bound %d * pages + %d)" % (me["o"], label, pages, OPS_PER_PAGE, OPS_CONST))
-            elif prof == "release" and max(me["t"], 0) > TIME_LIMIT_US:
-                desc = ("c09-time", "a single call of %s took %d us" % (label, me["t"]))
+            elif prof == "release" and me.get("c", 0) > TIME_LIMIT_US:
+                slow.append((me["c"], prof, m, label, masks if masks is not None else res["masks"]))
             elif re.search(r" over( |$)|end=over", text):
                 desc = ("c09-count", "%s yielded more points than the declared record count: %s" % (label, tot.strip_meter(text)[:160]))
             if desc:
@@ -261,7 +264,7 @@ def run(rep, tier, rng, replay=None):
     for i, m in enumerate(res["big"]["muts"]):
         rep.count(2)
         for prof in ("debug", "release"):
-            judge(prof, m, tot.parse_tot(res["big"]["out"][prof][i]))
+            judge(prof, m, tot.parse_tot(res["big"]["out"][prof][i]), masks=[0, 63])
     # descriptors through the API: cost and correspondence
     fr = res["free"]
     for i, line in enumerate(fr["lines"]):
@@ -301,6 +304,28 @@ def run(rep, tier, rng, replay=None):
             rep.violation("correspondence-c09", "model and implementation differ on %s (%s): impl [%s] model [%s]" %
                           (line.split()[0], fr["notes"][i], tot.comparable_free(fr["out"]["debug"][i])[:150], fr["model"][i][:150]),
                           dict(kind="free-descriptor", case=line, failing="correspondence raw iteration / blob model vs implementation incl. device operation counts"), no_input=True)
+    # c09-time: only after the case, run ALONE up to three times, still needs more CPU time than the bound in every run
+    n_time_unconfirmed = 0
+    for cpu, prof, m, label, masks in sorted(slow, key=lambda x: -x[0])[:4]:
+        line = "TOT %s %s -" % (tot.devtok(m["phys"]), "all" if masks == "all" else ",".join(str(x) for x in masks))
+        best = None
+        for _ in range(3):
+            t = tot.parse_tot(tot.run_alone(core.ensure_harness(prof), line))
+            if t.get("hang") or t["crash"]:
+                continue
+            c = [tot.meter(text).get("c", 0) for kind, lab, text, z in calls_of(t) if lab == label]
+            if c:
+                best = c[0] if best is None else min(best, c[0])
+            if best is not None and best <= TIME_LIMIT_US:
+                break
+        if best is not None and best > TIME_LIMIT_US:
+            n_bad += 1
+            rep.violation("c09-time", "%s profile, %s mutation of %s (%d bytes): a single call of %s needed %d us of CPU time in the sharded run and at least %d us in each of "
+                          "three runs of this file alone (bound %d us)" % (prof, m["kind"], m["base"], len(m["phys"]), label, cpu, best, TIME_LIMIT_US),
+                          dict(kind="file", file=m["phys"].hex(), mutation=m["kind"], base=m["base"], entry=label, profile=prof))
+        else:
+            n_time_unconfirmed += 1
+    rep.cov["slow_calls_not_confirmed_when_run_alone"] = n_time_unconfirmed
     for cls, (mbytes, desc, m, prof, label) in sorted(worst.items()):
         rep.violation(cls, "%s profile, %s mutation of %s: %s" % (prof, m["kind"], m["base"], desc),
                       dict(kind="file", file=m["phys"].hex(), mutation=m["kind"], base=m["base"], entry=label, profile=prof, note=m.get("note", "")))
